@@ -84,3 +84,59 @@ func VerifC05UnwrapRoot() {
 	verif.Assert("C04/unwrap-root/round-trip", same)
 	verif.Reach("C04/unwrap-root/decided")
 }
+
+func symBars(name string) []*Bar {
+	switch verif.Choice(name+".len", 3) {
+	case 1:
+		return []*Bar{{Symbol: verif.String(name+"0.symbol", verif.L(2)), Volume: verif.Int32(name + "0.volume")}}
+	case 2:
+		return []*Bar{{Symbol: verif.String(name+"0.symbol", verif.L(2))}, {Volume: verif.Int32(name + "1.volume")}}
+	}
+	return nil
+}
+
+func refBars(xs []*Bar) []byte {
+	var out [][]byte
+	for _, x := range xs {
+		out = append(out, verif.JObjOpt("symbol", verif.JStr(x.Symbol), x.Symbol != "", "volume", verif.JInt(int64(x.Volume)), x.Volume != 0))
+	}
+	return verif.JArr(out...)
+}
+
+// VerifC05UnwrapMapMessages: as VerifC05UnwrapMap with a wrapper whose list holds messages; a key
+// whose wrapper holds no element is still a key of the map, on the wire and after reading back.
+func VerifC05UnwrapMapMessages() {
+	m := &Portfolio{Id: verif.String("id", verif.L(2))}
+	hasA, hasB := verif.Bool("a.present"), verif.Bool("b.present")
+	if hasA || hasB {
+		m.BarsBySymbol = map[string]*BarList{}
+	}
+	var aBars, bBars []*Bar
+	if hasA {
+		aBars = symBars("a.bars")
+		m.BarsBySymbol["a"] = &BarList{Bars: aBars}
+	}
+	if hasB {
+		bBars = symBars("b.bars")
+		m.BarsBySymbol["b"] = &BarList{Bars: bBars}
+	}
+	data, err := m.MarshalJSON()
+	verif.Assert("C04/unwrap-map-messages/marshal-ok", err == nil)
+	ref := verif.JObjOpt("barsBySymbol", verif.JObjOpt("a", refBars(aBars), hasA, "b", refBars(bBars), hasB), hasA || hasB,
+		"id", verif.JStr(m.Id), m.Id != "")
+	verif.Assert("C05/unwrap-map-messages/wire=reference-mapping", verif.JEqual(data, ref))
+	var back Portfolio
+	verif.Assert("C04/unwrap-map-messages/unmarshal-own-output", back.UnmarshalJSON(data) == nil)
+	same := verif.And(back.Id == m.Id, len(back.BarsBySymbol) == len(m.BarsBySymbol))
+	for k, w := range m.BarsBySymbol {
+		bw := back.BarsBySymbol[k]
+		same = verif.And(same, bw != nil && len(bw.Bars) == len(w.Bars))
+		if bw != nil && len(bw.Bars) == len(w.Bars) {
+			for i := range w.Bars {
+				same = verif.And(same, bw.Bars[i].GetSymbol() == w.Bars[i].Symbol && bw.Bars[i].GetVolume() == w.Bars[i].Volume)
+			}
+		}
+	}
+	verif.Assert("C04/unwrap-map-messages/round-trip", same)
+	verif.Reach("C04/unwrap-map-messages/decided")
+}
